@@ -246,7 +246,10 @@ def hold_index(d, sites):
     if w == "start":
         return int(d["ef"] * span)
     if w == "site":
-        distinct = sorted(set(sites))
+        # sites in the task body itself ("T|": the lines of the worker function and the file calls it makes directly) are
+        # where workers meet on shared files; helper frames ("H|": reader construction etc.) get the smaller share
+        body = sorted({x for x in sites if x.startswith("T|")})
+        distinct = body if (body and d.get("sf2", 0.0) < 0.75) else sorted(set(sites))
         site = distinct[min(len(distinct) - 1, int(d.get("sf", 0.5) * len(distinct)))]
         occ = [i for i, x in enumerate(sites) if x == site]
         o = d.get("occ", "first")
@@ -254,12 +257,15 @@ def hold_index(d, sites):
     return min(cnt - 1, int(d["ef"] * cnt))
 
 
-def hold_candidates(sites_by_task):
-    """For sweeps: the first and the last occurrence of every distinct source site of every task."""
+def hold_candidates(sites_by_task, body_only=False):
+    """For sweeps: the first and the last occurrence of every distinct source site of every task
+    (body_only: only sites in the task function itself and the file calls it makes directly)."""
     out = []
     for t in sorted(sites_by_task):
         seen = {}
         for i, x in enumerate(sites_by_task[t]):
+            if body_only and not x.startswith("T|"):
+                continue
             seen.setdefault(x, [i, i])[1] = i
         idx = sorted({i for fl in seen.values() for i in fl})
         out += [(t, i) for i in idx]
@@ -287,6 +293,10 @@ def _io_call_codes():
             fns += [pd.read_parquet, pd.DataFrame.to_parquet]
         except Exception:
             pass
+        # methods of the seam's own file objects: a worker can be switched out between two calls on one source line
+        # (`if fid.seek(0, 2) < first: fid.truncate(first)`)
+        from . import fsseam as _fs
+        fns += [_fs.SimFile.seek, _fs.SimFile.truncate, _fs.SimFile.write, _fs.SimFile.flush, _fs.SimFile.close, _fs.sim_open]
         codes = {}
         for f in fns:
             try:
@@ -353,7 +363,8 @@ class _Worker:
                             SCHED.io_counts[_w.task] = k + 1
                             if SCHED.count_io:
                                 co_ = frame.f_code
-                                SCHED.io_sites.setdefault(_w.task, []).append(f"{co_.co_filename.rsplit('/', 1)[-1]}:{co_.co_name}:{frame.f_lineno - co_.co_firstlineno}")
+                                SCHED.io_sites.setdefault(_w.task, []).append(
+                                    ("T|" if co_ is code else "H|") + f"{co_.co_filename.rsplit('/', 1)[-1]}:{co_.co_name}:{frame.f_lineno - co_.co_firstlineno}")
                             dl = SCHED.delay
                             if dl is not None and dl["task"] == _w.task and dl["at"] == k and not _w.par.abort:
                                 dl["reached"] = True
@@ -382,7 +393,10 @@ class _Worker:
                         k = SCHED.io_counts.get(_w.task, 0)
                         SCHED.io_counts[_w.task] = k + 1
                         if SCHED.count_io:
-                            SCHED.io_sites.setdefault(_w.task, []).append("call:" + nm)
+                            fb = frame.f_back
+                            in_task = fb is not None and fb.f_code is _code
+                            SCHED.io_sites.setdefault(_w.task, []).append(
+                                ("T|" if in_task else "H|") + "call:" + nm + (f"@{fb.f_lineno - fb.f_code.co_firstlineno}" if in_task else ""))
                         dl = SCHED.delay
                         if dl is not None and dl["task"] == _w.task and dl["at"] == k and not _w.par.abort:
                             dl["reached"] = True
